@@ -1,6 +1,11 @@
 """Per-property configuration of ./check: Lean targets, harness runs, driver mode, texts for the evidence."""
+import os
 
 HASHES = 'SHA-256/Keccak-256/BLS are modelled (executable Lean hashes in the driver; soundness theorems are stated up to an explicit collision), not verified'
+
+# C01: unguarded accesses on peer-controlled data still present in /repo (DESIGN section 6 rows 1-8), by field name of Dp.Quirks.
+# Each is a REAL defect reported by ./check C01 as clause no_panic@<site>; delete the name once the corresponding guard is committed.
+C01_QUIRKS = []
 
 PROPS = {
     'C15': {
@@ -379,5 +384,47 @@ PROPS = {
                        '(roundtrip, overlimit_rejected, limits_enforced, canonical re-encoding, error table = struct) are evaluated on the implementation output '
                        'independently of the model. Beacon containers: Go-side round-trip, digest->type dispatch, slot accessors, limit and canonicity facts per '
                        'wrapper and fork, without a Lean codec',
+    },
+    'C01': {
+        'lean_targets': ['Shisui.Props.C01'],
+        'min_obligations': 20,
+        # driver argument: the unguarded sites still present in /repo (fields of Dp.Quirks). With a site listed the model predicts the
+        # panic there exactly (so everything else still compares) and the monitor reports it as clause no_panic@<site>; remove a name
+        # when its `fix:` lands — the model then predicts what the guard returns (see C01_QUIRKS above).
+        'runs': [{'name': 'all', 'harness': ['C01'], 'driver': ['C01'] + (['q=' + ','.join(C01_QUIRKS)] if C01_QUIRKS else []), 'timeout': 2400}],
+        'rule': 'every case calls the real code under recover() and a 10 s watchdog and yields an outcome class (reply:<code>[.<selector>] | empty | ok | '
+                'found:<len> | notfound | err | panic@<function>:<kind> | timeout | died@...); byte strings are handed over with capacity = length, as decoded '
+                'packets are, so that a read past the end faults. talk: handleTalkRequest on started nodes of the history, '
+                'beacon and state networks with their REAL adapters (history.NewHistoryStorage over pebble + ephemeral store, beacon.NewBeaconStorage, '
+                'state.NewStateStorage; in-memory pebble) holding content of sizes 0/1/1175/1176/5000, the repo\'s beacon vectors and (second phase) '
+                'historical summaries; senders negotiating version 0, 1 and none; messages: empty, all 256 codes alone, 2-3 bytes, every request type at '
+                'fixed-size-1 / fixed size / limit / limit+1 (PING payload 1100/1101, 256/257 distances, key 2048/2049, 64/65 keys), EVERY prefix of a valid message of '
+                'each type, offset games, valid '
+                'encodings with keys chosen per adapter (empty, one byte, every type byte, well-formed, short, long, stored; update ranges with count 0, '
+                '2^64-1, wrap-around; summaries keys of 0..12 bytes) and their bit/byte/truncate/extend/offset/delete/duplicate mutations, random bytes, '
+                'all 256 codes before valid bodies. resp: processPong/Nodes/Content/Offer on empty, every code, every selector, valid replies of both ACCEPT '
+                'encodings, every prefix of them, mutations, 32/33 records, 2048/2049-byte items, connection-id replies (real dial). oc: handleOfferedContents on framed '
+                'streams (boundary varints, wrong counts, mutations, random). get/put: the three adapters directly (all 256 type bytes, vectors, structured '
+                'state proofs with 0..3 nodes, summaries put/get histories on fresh stores with 0..12-byte keys). val: the three validators over a lying '
+                'header source (repo vectors + mutations, forged-but-consistent execution branches with slots around the 758-entry roots table, legacy / '
+                'Shanghai bodies against headers with / without withdrawals root, two-node trie proofs built bottom-up with peer-chosen paths). trav: '
+                'TraverseTrieNode on 600 decoded random nodes. In child processes (a panic in a talk goroutine cannot be recovered): 300 uTP packets '
+                '(truncated, every type/version nibble, extension chains) into the uTP talk handler directly and over the wire followed by a real 40 kB uTP '
+                'transfer; ~40 TALKREQs per network sent over the in-memory discv5 link, each followed by a ping. thorough: x20. non-trivial = the byte '
+                'string has more than 2 bytes (talk/resp/oc), the key more than 1 byte (get/put/val), a non-empty path (trav); distinct = distinct lines',
+        'trusted': ['rlp, ztyp/zrnt SSZ containers, ping-extension payloads, ENR verification, Merkle/Keccak checks, pebble and utp-go are dependencies: not modelled '
+                    'byte for byte (model outcome `handled` = value or error), assumed panic-free and sampled by the correspondence run',
+                    'fastssz helpers (ReadOffset, DecodeDynamicLength, UnmarshalDynamic, DivideInt2, ValidateBitlist) and go-bitfield Len/BitIndices are re-modelled in Lean',
+                    'panic sites are named from the Go stack trace (function + kind of run-time error), not by line'],
+        'assumptions': ['the validation queue is not full (v0 offers) and content ids are sha256(key) (all three networks use the default)',
+                        'the ephemeral history store is empty (nothing a validated offer stores is retrievable through its Get)',
+                        'stored historical summaries were written by Put (invariant SumWf, proved to be kept by the ideal Put)',
+                        'nobody accepts the uTP connections the harness makes the node dial'],
+        'explanation': 'theorems about the model with every unguarded access guarded: the talk handler never panics and answers empty or with the response code '
+                       'of the request, for every network / store content / version / byte string; the four response processors, the stream-body handler, the '
+                       'adapters\' Get and Put, the validators (by shape) and the trie traversal end in a value or an error; the peer-bounded update-range loop '
+                       'makes at most stored+1 look-ups; plus one decided witness per unguarded site (Findings). Correspondence: outcome-class equality of the '
+                       'real code with the model in which the sites listed in C01_QUIRKS are switched on; monitors no_panic@<site>, no_remote_kill@<site>, '
+                       'call_returns, reply_or_empty, reply_code_matches_request, node_alive_after, utp_* on the implementation\'s own output',
     },
 }
